@@ -321,7 +321,7 @@ def saved_files_main():
     res = {"preferred_encoding": locale.getpreferredencoding(False)}
     dep = ht.HTMLDependency("d\u00e9p", "1.0", source={"href": "https://cdn.example/\u00fc"}, script={"src": "s.js"}, meta={"name": "m", "content": "caf\u00e9"})
     # a library with a real (ASCII-named) file, copied to an ABSOLUTE library directory that is the same in every child process
-    absdir = os.path.join(tempfile.gettempdir(), "hv-c18-absolute-libdir")
+    absdir = os.path.join(os.environ.get("HV_C18_ABSDIR") or tempfile.mkdtemp(prefix="hv-c18-abs-"), "absolute libdir")
     src = os.path.join(d, "src")
     os.makedirs(src)
     with open(os.path.join(src, "f.js"), "w") as fh:
@@ -503,7 +503,14 @@ def run(ctx):
             ctx.violation(key, "battery item %d (%s) gave %d different results across processes/orders" % (i, kind, len(seen)),
                           {"item": i, "kind": kind, "recipe": recipe, "groups": [g[:4] for g in groups]})
     # the files save_html() writes, in processes whose default text encoding differs: same bytes (UTF-8, as the document says)
-    envs = [(label, spawn_saved(e)) for label, e in ENVIRONMENTS]
+    import shutil as _sh
+    import tempfile as _tf
+
+    abs_parent = _tf.mkdtemp(prefix="hv-c18-abs-")     # one absolute directory for all children of THIS run (runs may overlap)
+    try:
+        envs = [(label, spawn_saved(dict(e, HV_C18_ABSDIR=abs_parent))) for label, e in ENVIRONMENTS]
+    finally:
+        _sh.rmtree(abs_parent, ignore_errors=True)
     ctx.notes["default_encodings_observed"] = sorted({r_["preferred_encoding"] for _, r_ in envs})
     ref_label, ref_env = envs[0]
     for label, r_ in envs:
